@@ -714,6 +714,111 @@ func Run(r *ev.Run) {
 		}
 	}
 
+	// ---- B4 labels that contain a dot or a backslash (any octet may occur in a label): what was decoded encodes back to the
+	// same octets, in question, owner and RDATA position ----
+	{
+		wireName := func(labels []string) []byte {
+			var b []byte
+			for _, l := range labels {
+				b = append(append(b, byte(len(l))), l...)
+			}
+			return append(b, 0)
+		}
+		dots127 := make([]string, 127) // the longest legal name (254 octets before the root label), every label a dot
+		for i := range dots127 {
+			dots127[i] = "."
+		}
+		for _, ls := range [][]string{dots127, {strings.Repeat(".", 63), strings.Repeat("\\", 63), strings.Repeat(".", 63), strings.Repeat("a.", 30)}, {"a.b", "example"}, {"a.", "example", "com"}, {".", "x"}, {"\\", "x"}, {"a\\.b"}, {strings.Repeat("\\", 63)}, {strings.Repeat(".", 63), "y"}, {"www", "com."}, {"w\\"}, {"plain", "name"}} {
+			for _, rd := range [][]string{{"t.t", "example"}, {"target", "example"}} {
+				wire := []byte{0, 7, 0x81, 0x80, 0, 1, 0, 2, 0, 0, 0, 0}
+				wire = append(append(wire, wireName(ls)...), 0, 65, 0, 1)
+				rdata := wireName(rd)
+				wire = append(append(wire, wireName(ls)...), 0, 5, 0, 1, 0, 0, 0, 60, byte(len(rdata)>>8), byte(len(rdata)))
+				wire = append(wire, rdata...)
+				svcb := append([]byte{0, 0}, wireName(rd)...)
+				wire = append(append(wire, wireName(rd)...), 0, 65, 0, 1, 0, 0, 0, 60, byte(len(svcb)>>8), byte(len(svcb)))
+				wire = append(wire, svcb...)
+				desc := fmt.Sprintf("%q/%q", ls, rd)
+				dec, err := dns.DecodeMessage(wire)
+				if err != nil {
+					r.Violation("decode-rejects-valid:label-with-dot", fmt.Sprintf("labels %s: %v", desc, err), fmt.Sprintf("%x", wire))
+					continue
+				}
+				var re []byte
+				func() {
+					defer func() {
+						if p := recover(); p != nil {
+							r.Violation("encode-panic:label-with-dot", fmt.Sprintf("labels %s: %v", desc, p), fmt.Sprintf("%x", wire))
+						}
+					}()
+					re = dec.Bytes()
+				}()
+				oc := "label-with-dot-ok"
+				if re != nil && !bytes.Equal(re, wire) {
+					oc = "label-with-dot-differs"
+					r.Violation("roundtrip-bytes:label-with-dot", fmt.Sprintf("a message whose names have the labels %s decodes (question name %q) and encodes back to other octets:\n got  %x\n want %x", desc, dec.Question[0].Name, re, wire), fmt.Sprintf("%x", wire))
+				}
+				r.Eval("dotlabel:"+desc, oc)
+			}
+		}
+	}
+
+	// ---- B5 reserved label types are not pointers: a valid compressed message in which the two high bits of a pointer octet are
+	// changed from 11 to 10 or 01 must be rejected (as the independent codec does), in owner and RDATA position ----
+	{
+		base := []byte{0, 9, 0x81, 0x80, 0, 1, 0, 2, 0, 0, 0, 0, 1, 'o', 7, 'e', 'x', 'a', 'm', 'p', 'l', 'e', 0, 0, 2, 0, 1}
+		ownerAt := len(base)
+		base = append(base, 0xc0, 12, 0, 2, 0, 1, 0, 0, 0, 60, 0, 2)
+		rdataAt := len(base)
+		base = append(base, 0xc0, 12)
+		base = append(base, 0xc0, 12, 0, 1, 0, 1, 0, 0, 0, 60, 0, 4, 10, 0, 0, 1)
+		if _, err := dns.DecodeMessage(base); err != nil {
+			ev.ToolError("c13: pointer base message does not decode: %v", err)
+		}
+		if _, err := dnsref.Decode(base); err != nil {
+			ev.ToolError("c13: pointer base message refused by the reference codec: %v", err)
+		}
+		for _, at := range []int{ownerAt, rdataAt} {
+			for _, hi := range []byte{0x80, 0x40} {
+				m := slices.Clone(base)
+				m[at] = hi | m[at]&0x3f
+				_, refErr := dnsref.Decode(m)
+				dec, err := dns.DecodeMessage(m)
+				oc := "reserved-label-type-rejected"
+				if refErr != nil && err == nil {
+					oc = "reserved-label-type-accepted"
+					r.Violation("decode-accepts-invalid:reserved-label-type", fmt.Sprintf("length octet %#x (a reserved label type, not a pointer) at offset %d is accepted; decoded answers: %+v", m[at], at, dec.Answer), fmt.Sprintf("%x", m))
+				}
+				r.Eval(fmt.Sprintf("reserved:%d:%x", at, hi), oc)
+			}
+		}
+	}
+
+	// ---- B6 what Bytes returned stays what it was: the encoding of one record must not change when another one is encoded ----
+	{
+		pool := []dns.RR{
+			{Name: "a.example", Type: 1, Class: 1, TTL: 60, Data: ip4a},
+			{Name: "bb.example", Type: 28, Class: 1, TTL: 61, Data: ip6a},
+			{Name: "c.example", Type: 5, Class: 1, TTL: 62, Data: "target.example"},
+			{Name: "d.example", Type: 65, Class: 1, TTL: 63, Data: dns.HTTPS{Priority: 1, Target: "svc.example", ALPN: []string{"h2", "h3"}, Port: 8443}},
+			{Name: "", Type: 41, Class: 1232, Data: []dns.Option{{Code: 12, Data: make([]byte, 40)}}},
+		}
+		for i := range pool {
+			for j := range pool {
+				first := pool[i].Bytes()
+				keep := slices.Clone(first)
+				_ = pool[j].Bytes()
+				_ = dns.Message{Question: []dns.Question{{Name: "q.example", Type: 1, Class: 1}}, Answer: []dns.RR{pool[j]}}.Bytes()
+				oc := "bytes-stable"
+				if !bytes.Equal(first, keep) {
+					oc = "bytes-overwritten"
+					r.Violation("earlier-output-overwritten:rr-bytes", fmt.Sprintf("the slice returned by RR.Bytes for record %d changed when record %d was encoded afterwards:\n was %x\n now %x", i, j, keep, first), fmt.Sprint(i, j))
+				}
+				r.Eval(fmt.Sprintf("rrbytes:%d:%d", i, j), oc)
+			}
+		}
+	}
+
 	// ---- C extended RCODE ----
 	for rc := 0; rc < 16; rc++ {
 		for _, hi := range []uint32{0, 1, 0x80, 0xff} {
